@@ -76,9 +76,9 @@ var properties = map[string]Property{
 	},
 	"C03": {
 		Level:       "other",
-		Rules:       []string{"P-POST-NONEMPTY", "P-RTERR", "P-PANICTYPE", "P-ASSERT", "P-NILGUARD", "P-IFACE-EQ", "V-VALIDATED", "V-ACCEPT", "V-TWO-CURRENT", "V-BOOL", "P-SCT", "O-SEQ", "I-OVERFLOW", "I-RANGE", "I-BUF", "I-PROGRESS", "R-ITER-STABLE", "G-IMPORTS"},
-		Explanation: "Decided (structural part): (i) every return of a retrieve-family function is a fresh error value, the result of a step on the same sink, a variable proven non-nil, or nil on a path where the sink is known non-empty (must-analysis over appends and len(result)>0 edges), so success is never empty and every result[0] read follows a successful step; (ii) only the three documented runtime error types are converted to the runtime-error interface, each implements error, and ErrorFunctionFailed is built only under a non-nil error of a user-function call; (iii) no explicit panic in evaluation code, reflect.TypeOf(x) dereferenced only under x != nil, every unchecked assertion is a pool element, a runtime error asserted to error, or a validated comparator operand, and every interface comparison has a nil / comparable-concrete operand or validated operands; (iv) recursion cycles descend on the tree and loops are counted/range/worklist loops. Also decided: the logical nodes index a verdict list member by member only on paths where it is known not to be a one-element list and read X[0] only under len(X)==1 (V-BOOL); the right operand is read out of its list after validation succeeded (V-VALIDATED); a comparison between two per-member operands is rejected at parse time for every comparator (V-TWO-CURRENT); no loop walks a list that steps called inside it can reach and overwrite (R-ITER-STABLE). Not decided: valueList[0] in the filter, whose safety needs the invariant that every computed list has length 1 or the member count (assumed); time bounds beyond termination. Also decided (v): subscript arithmetic cannot overflow, produced indices lie in [0, length-1], buffer writes are in range and subscript loops terminate (zone abstract interpretation, see C11).",
-		Assumptions: []string{"assumed obligation: every list computed by a filter query has length 1 or the member count (used for valueList[0] in the filter qualifier)"},
+		Rules:       []string{"P-POST-NONEMPTY", "P-RTERR", "P-PANICTYPE", "P-ASSERT", "P-NILGUARD", "P-IFACE-EQ", "V-VALIDATED", "V-ACCEPT", "V-TWO-CURRENT", "V-BOOL", "L-CLASS", "P-SCT", "O-SEQ", "I-OVERFLOW", "I-RANGE", "I-BUF", "I-PROGRESS", "R-ITER-STABLE", "G-IMPORTS"},
+		Explanation: "Decided (structural part): (i) every return of a retrieve-family function is a fresh error value, the result of a step on the same sink, a variable proven non-nil, or nil on a path where the sink is known non-empty (must-analysis over appends and len(result)>0 edges), so success is never empty and every result[0] read follows a successful step; (ii) only the three documented runtime error types are converted to the runtime-error interface, each implements error, and ErrorFunctionFailed is built only under a non-nil error of a user-function call; (iii) no explicit panic in evaluation code, reflect.TypeOf(x) dereferenced only under x != nil, every unchecked assertion is a pool element, a runtime error asserted to error, or a validated comparator operand, and every interface comparison has a nil / comparable-concrete operand or validated operands; (iv) recursion cycles descend on the tree and loops are counted/range/worklist loops. Also decided: the logical nodes index a verdict list member by member only on paths where it is known not to be a one-element list and read X[0] only under len(X)==1 (V-BOOL); the right operand is read out of its list after validation succeeded (V-VALIDATED); a comparison between two per-member operands is rejected at parse time for every comparator (V-TWO-CURRENT); no loop walks a list that steps called inside it can reach and overwrite (R-ITER-STABLE). every verdict list a query returns has length 1 or the member count (L-CLASS, inductive over the query family), and the filter reads result[0] only where the length differs from the member count. Not decided: time bounds beyond termination. Also decided (v): subscript arithmetic cannot overflow, produced indices lie in [0, length-1], buffer writes are in range and subscript loops terminate (zone abstract interpretation, see C11).",
+		Assumptions: []string{"the sorted key list of an object has as many entries as the object (shown by O-MAPRANGE under C07: resliced to len(map), one key stored per iteration)"},
 	},
 	"C08": {
 		Level:       "other",
@@ -87,7 +87,7 @@ var properties = map[string]Property{
 	},
 	"C09": {
 		Level:       "other",
-		Rules:       []string{"V-OPS", "V-WIRE", "V-PREC", "V-SINGLE-RIGHT", "V-LITERAL", "V-VALIDATED", "V-INPUT-PURE", "V-BOOL", "V-TWO-CURRENT", "N-GETSET", "G-IMPORTS"},
+		Rules:       []string{"V-OPS", "V-WIRE", "V-PREC", "V-SINGLE-RIGHT", "V-LITERAL", "V-VALIDATED", "V-INPUT-PURE", "V-BOOL", "L-CLASS", "V-TWO-CURRENT", "N-GETSET", "G-IMPORTS"},
 		Explanation: "Decided (structural part): each ordering builder realises one operator on every path — straight operands with its own comparator, exchanged operands with the mirror comparator — and the four operators are each realised by exactly one builder; every comparator's loop keeps exactly the elements for which `element OP right` holds and blanks the others; `!=` is NOT(==) over the same operands in order; no comparison is built with a per-member operand on the right of a member-independent one (evaluation reads only right[0]). Also decided (per-node half of the Boolean-algebra clause): a symbolic execution of the AND / OR / NOT nodes compares, for every path and every path through the merge loop, the truth value of the returned list at a member with the truth table of the operator the grammar wires the node to, with the length-1 whole-match convention as path facts (V-BOOL); no query returns or writes the member list it was given, so the operands of one operator see the same members (V-INPUT-PURE); a comparison of two per-member operands cannot be built (V-TWO-CURRENT). Not decided: the composition over whole filter expressions as a relation between query results. Also decided: each comparison / logical token of the grammar the generated parser runs runs the builder of its own operator with (left, right) in source order, and `||` binds looser than `&&`, looser than comparison / parentheses / `!`.",
 	},
 	"C10": {
